@@ -1,5 +1,4 @@
-//go:build verif
-
+//go:build verif && verif_c17
 // Verification hooks for property C17 (style registry / style resolution):
 // canonical dumps of the internal style tables and of the three levels of
 // style attachment of a worksheet. Compiled only with `-tags verif`; adds
